@@ -365,13 +365,19 @@ pub struct Model {
     /// thread 0 (x86 / amd64 / arm64, single-thread models only): its stack holds a frame-pointer chain of this
     /// many frame records `[caller's frame pointer][return address]`, return addresses in the application module
     pub deep: Option<usize>,
+    /// amd64 only, with `gpr_fill`: rbx holds this value instead
+    pub rbx: Option<u64>,
+    /// by construction the crashing instruction's memory operand has a NULL base register (and a non-null index)
+    pub null_base: bool,
+    /// effective address of the crashing instruction's memory operand when it is not simply [rsp]
+    pub effective_address: Option<u64>,
 }
 pub const HEADER_TIME: u64 = 1262805309; // fixed by minidump-synth
 pub const STACK_BASE: u64 = 0x7000_0000;
 
 impl Model {
     pub fn new(cpu: CpuK, platform_id: u32) -> Model {
-        Model { cpu, platform_id, threads: vec![], thread_names: vec![], exc: None, bp: None, modules: vec![], unloaded: vec![], maps: MapsM::None, misc: None, status: None, lsb: None, code: None, syms: vec![], gpr_fill: None, deep: None }
+        Model { cpu, platform_id, threads: vec![], thread_names: vec![], exc: None, bp: None, modules: vec![], unloaded: vec![], maps: MapsM::None, misc: None, status: None, lsb: None, code: None, syms: vec![], gpr_fill: None, deep: None, rbx: None, null_base: false, effective_address: None }
     }
     pub fn os(&self) -> OsK {
         os_of(self.platform_id)
@@ -433,6 +439,9 @@ pub fn build(m: &Model) -> Vec<u8> {
                     c.context_flags = 0x10001f;
                     (c.rax, c.rcx, c.rdx, c.rbx, c.rbp, c.rsi, c.rdi) = (v, v, v, v, v, v, v);
                     (c.r8, c.r9, c.r10, c.r11, c.r12, c.r13, c.r14, c.r15) = (v, v, v, v, v, v, v, v);
+                    if let Some(b) = m.rbx {
+                        c.rbx = b;
+                    }
                     c.rsp = x.ctx_sp;
                     c.rip = x.ctx_ip;
                 }),
@@ -999,6 +1008,43 @@ pub fn gen_deep_stacks(_tier: Tier) -> Gen {
         m
     };
     Gen { name: "deep-stacks", len, model: Arc::new(model) }
+}
+
+/// `mov rax,[rbx+rcx*8]` with rcx = 0x0000_2000_0000_2002: the effective address is rbx + 0x0001_0000_0001_0010, a
+/// non-canonical value one bit (48) away from the mapped page of 0x10010 when rbx = 0 (a null base: a null pointer
+/// plus offset, whatever the sum looks like) and for the control rbx = 0x20 (a real base). x 8 exception renderings
+/// (three of them the general-protection-fault signatures) x map {rw page as memory info, as Linux maps, none}.
+pub fn gen_null_base(_tier: Tier) -> Gen {
+    let radices = vec![2u64, 8, 3];
+    let len = crate::core::product(&radices);
+    let model = move |idx: u64| {
+        let d = crate::core::unrank(idx, &radices);
+        let rbx = [0u64, 0x20][d[0] as usize];
+        let ea = rbx + 0x0001_0000_0001_0010;
+        let (pid, rec, exc_addr) = bitflip_exc(d[1], if matches!(d[1], 0..=2) { u64::MAX } else { 0 });
+        let mut m = Model::new(CpuK::Amd64, pid);
+        add_threads(&mut m, &[1], 0);
+        m.threads[0].ip = 0x4000_2000;
+        m.modules.push(app_module());
+        m.maps = match d[2] {
+            0 => MapsM::Info(vec![(0x10000, 0x1000, INFO_PERMS[4])]),
+            1 => MapsM::Linux(vec![(0x10000, 0x10fff, "rw")]),
+            _ => MapsM::None,
+        };
+        let mut x = exc_of(rec, 1, exc_addr, 1);
+        x.ctx_ip = 0x4000_2000;
+        x.ctx_sp = STACK_BASE;
+        let mut code = vec![0x48, 0x8b, 0x04, 0xcb];
+        code.resize(16, 0x90);
+        m.code = Some((0x4000_2000, code));
+        m.gpr_fill = Some(0x0000_2000_0000_2002);
+        m.rbx = Some(rbx);
+        m.null_base = rbx == 0;
+        m.effective_address = Some(ea);
+        m.exc = Some(x);
+        m
+    };
+    Gen { name: "null-base", len, model: Arc::new(model) }
 }
 
 pub const TID_PATTERNS: [&[u32]; 7] = [&[], &[1], &[1, 2], &[2, 2], &[1, 2, 7], &[5, 1, 5], &[1, 2, 2, 7]];
